@@ -1074,7 +1074,12 @@ class SMTPClient(basic.LineReceiver, policies.TimeoutMixin):
         else:
             self.sendLine(b"RCPT TO:" + quoteaddr(self.lastAddress))
 
+    # Whether the next byte of message data handed to transformChunk is the
+    # first byte of a line.
+    _dataAtLineStart = True
+
     def smtpState_data(self, code, resp):
+        self._dataAtLineStart = True
         s = basic.FileSender()
         d = s.beginFileTransfer(self.getMailData(), self.transport, self.transformChunk)
 
@@ -1109,7 +1114,15 @@ class SMTPClient(basic.LineReceiver, policies.TimeoutMixin):
         being made sending the message body, the client will not time out.
         """
         self.resetTimeout()
-        return chunk.replace(b"\n", b"\r\n").replace(b"\r\n.", b"\r\n..")
+        chunk = chunk.replace(b"\n", b"\r\n").replace(b"\r\n.", b"\r\n..")
+        # A period which begins a line must also be escaped when that line
+        # begins the message or begins a chunk (its preceding newline was the
+        # end of the previous chunk).
+        if self._dataAtLineStart and chunk.startswith(b"."):
+            chunk = b"." + chunk
+        if chunk:
+            self._dataAtLineStart = chunk.endswith(b"\n")
+        return chunk
 
     def finishedFileTransfer(self, lastsent):
         if lastsent != b"\n":
